@@ -34,6 +34,8 @@ EXPLANATION = (
     " length-derived range must not exclude zero-padded numbers (known finding). (O2.11) every pair of distinct"
     " separators can be declared with every representable delimiter configuration (C11's exact consistency"
     " matrix)."
+    " Added in round 10: (O2.6) a Pattern field that matches with fnmatch.fnmatch / fnmatchcase is seen as"
+    " such (no case folding on POSIX); (O1.3) as in C01."
 )
 ASSUMPTIONS = ["int(), decimal.Decimal(), time.strptime, re and fnmatch implement their documented semantics"]
 
